@@ -35,8 +35,14 @@ package main
 //@   at call session.Run: ghost nstart = nstart + 1
 //@   after stmt "activeRuns--": ghost ncollect = ncollect + 1
 //@   ensures[C11] allcollected: ncollect == nstart
+// C17/C11: every run is given the dispatcher's own result channel and its own log channel (a run without log channel
+// reports a failure by aborting the PROCESS - Run#epilogue - which would take the rest of the line range with it)
+//@   ghost var ownchannels bool = true
+//@   at call session.Run: ghost ownchannels = ownchannels && arg3 == resultChannel && arg4 == logOutputChan
+//@   ensures[C11,C17] channels: ownchannels
 //@ loop doConcurrentBatchRun#1
 //@   invariant range: 0 <= \i && \i <= len(configLines)
+//@   invariant[C11,C17] channels: ownchannels
 //@   invariant[C11] active: activeRuns == nstart - ncollect && activeRuns >= 0
 //@   invariant slots: activeRuns <= concurrentOperations
 //@   invariant done: forall(k, 0, \i, started[k] == ite(startLine <= k && (numberOfLines <= 0 || k < numberOfLines), 1, 0))
